@@ -281,7 +281,7 @@ parser! {
     pub rule duration() -> DurationLiteral = start:position!() (tok(TokenType::Time) / dt_sep("T") / dt_sep("t")) tok(TokenType::Hash) s:(tok(TokenType::Minus))? i:interval() end:position!() {
       let span = SourceSpan::range(start, end);
       let interval = match s {
-        Some(sign) => i.interval * -1,
+        Some(sign) => -i.interval,
         None => i.interval,
       };
       DurationLiteral {
@@ -295,7 +295,7 @@ parser! {
       / h:hours() { h }
       / m:minutes() { m }
       / s:seconds() { s }
-    rule days() -> DurationLiteral = days:fixed_point() dt_sep("d") { DurationLiteral::days(days) } / days:integer() dt_sep("d") dt_sep("_")? hours:hours() { hours.plus(DurationLiteral::days(days.into())) }
+    rule days() -> DurationLiteral = days:fixed_point() dt_sep("d") {? DurationLiteral::days(days) } / days:integer() dt_sep("d") dt_sep("_")? hours:hours() {? hours.plus(DurationLiteral::days(days.into())?) }
     rule fixed_point() -> FixedPoint =
       fp:tok(TokenType::FixedPoint) {?
         FixedPoint::parse(fp.text.as_str())
@@ -303,10 +303,10 @@ parser! {
       / i:integer() {?
         Ok(i.into())
     }
-    rule hours() -> DurationLiteral = hours:fixed_point() dt_sep("h") { DurationLiteral::hours(hours) } / hours:integer() dt_sep("h") dt_sep("_")? min:minutes() { min.plus(DurationLiteral::hours(hours.into())) }
-    rule minutes() -> DurationLiteral = min:fixed_point() dt_sep("m") { DurationLiteral::minutes(min) } / mins:integer() dt_sep("m") dt_sep("_")? sec:seconds() { sec.plus(DurationLiteral::minutes(mins.into())) }
-    rule seconds() -> DurationLiteral = secs:fixed_point() dt_sep("s") { DurationLiteral::seconds(secs) } / sec:integer() dt_sep("s") dt_sep("_")? ms:milliseconds() { ms.plus(DurationLiteral::seconds(sec.into())) }
-    rule milliseconds() -> DurationLiteral = ms:fixed_point() dt_sep("ms") { DurationLiteral::milliseconds(ms) }
+    rule hours() -> DurationLiteral = hours:fixed_point() dt_sep("h") {? DurationLiteral::hours(hours) } / hours:integer() dt_sep("h") dt_sep("_")? min:minutes() {? min.plus(DurationLiteral::hours(hours.into())?) }
+    rule minutes() -> DurationLiteral = min:fixed_point() dt_sep("m") {? DurationLiteral::minutes(min) } / mins:integer() dt_sep("m") dt_sep("_")? sec:seconds() {? sec.plus(DurationLiteral::minutes(mins.into())?) }
+    rule seconds() -> DurationLiteral = secs:fixed_point() dt_sep("s") {? DurationLiteral::seconds(secs) } / sec:integer() dt_sep("s") dt_sep("_")? ms:milliseconds() {? ms.plus(DurationLiteral::seconds(sec.into())?) }
+    rule milliseconds() -> DurationLiteral = ms:fixed_point() dt_sep("ms") {? DurationLiteral::milliseconds(ms) }
 
     // 1.2.3.2 Time of day and date
     rule time_of_day() -> TimeOfDayLiteral = tok(TokenType::TimeOfDay) tok(TokenType::Hash) d:daytime() { TimeOfDayLiteral::new(d) }
